@@ -230,7 +230,7 @@ META = {
                "thorough": "message lengths 0,1,24,25,48,49,144"},
     "outside": ["populated runs other than the 9 (12) scenarios of O4 on one 13-node tree (reception by 'every other node of level L' for all "
                 "addresses follows from O1's address + C04-O2/O3 + O2)", "what a relaying node of level 0 or 4 transmits (the statement speaks of "
-                "levels 1..3)", "timing jitter"],
+                "levels 1..3)", "timing jitter beyond the symbolic hold-back schedules (the first K occasions a node could run it may be held back for 1/8/40 poll points; K = 4..6 quick, 6..8 thorough)"],
     "assumptions": ["nobody acknowledges a multicast (the link never acknowledges in these harnesses)",
                     "reference level addresses specs/net_spec.level_addr"],
 }
